@@ -1,9 +1,13 @@
 package main
 
 import (
+	"bytes"
+	"crypto/sha256"
+	"encoding/hex"
 	"fmt"
 
 	"github.com/zen-eth/shisui/state"
+	"github.com/zen-eth/shisui/storage"
 	"verifharness/mc"
 )
 
@@ -81,4 +85,85 @@ func c13Sequences(r *mc.Report, e *Env) {
 		}
 	}
 	r.Count("carried_validator_sequences", int64(n))
+	c13OtherBlock(r, e)
+	c13HeldKeys(r, e)
+}
+
+// c13OtherBlock: after a genuine item was accepted, the same item naming ANOTHER block the header
+// source knows (with another state root) must be rejected by the same validator as by a fresh one:
+// its proof does not start at that block's state root.
+func c13OtherBlock(r *mc.Report, e *Env) {
+	n := 0
+	otherHash := sha256.Sum256([]byte("verif c13 another known block"))
+	otherRoot := sha256.Sum256([]byte("verif c13 another state root"))
+	for i, b := range c13Bases(e.Thorough()) {
+		if !b.genuine || !e.Mine(i) || e.Expired() {
+			continue
+		}
+		first, second := b.c.clone(), b.c.clone()
+		roots := map[string]hexb{hex.EncodeToString(otherHash[:]): otherRoot[:]}
+		for k, v := range b.c.Roots {
+			roots[k] = v
+		}
+		first.Roots, second.Roots = roots, roots
+		second.Block = otherHash[:]
+		second.Op = "names another known block"
+		cs := c13SeqCase{"carried-validator", first, second}
+		or := &c13MutOracle{c13Oracle(roots)}
+		v := state.NewStateValidator(or)
+		run := func(v *state.StateValidator, c *c13Case) (err error) {
+			key, content := c.wire()
+			if m, _ := panicsTo(func() { err = v.ValidateContent(key, content) }); m != "" {
+				err = fmt.Errorf("panic: %s", m)
+			}
+			return
+		}
+		e1 := run(v, &first)
+		e2 := run(v, &second)
+		ef := run(state.NewStateValidator(or), &second)
+		if e1 != nil {
+			r.Count("model_drift_genuine_item_rejected_with_two_known_blocks", 1)
+		}
+		if e2 == nil {
+			r.Violation("accepted-only-with-valid-proof", c13KindName[b.c.Kind]+":other-block-after-the-genuine-item-on-the-same-validator",
+				fmt.Sprintf("%s: accepted under its own block, then accepted again naming another block whose state root is different (a fresh validator says: %v)", b.c.Base, ef), cs)
+		}
+		r.Exec(fmt.Sprintf("otherblock|%s|%v|%v|%v", c13KindName[b.c.Kind], e1 == nil, e2 == nil, ef == nil))
+		n++
+	}
+	r.Count("other_block_sequences", int64(n))
+}
+
+// c13HeldKeys: one Storage instance. After the genuine item is held, a Put of forged content
+// under the same key must fail exactly as it fails on an empty store.
+func c13HeldKeys(r *mc.Report, e *Env) {
+	n := 0
+	for i, b := range c13Bases(false) {
+		if !b.genuine || !e.Mine(i) || e.Expired() {
+			continue
+		}
+		gkey, gcontent := b.c.wire()
+		id := sha256.Sum256(gkey)
+		used := state.NewStateStorage(storage.NewMockStorage(), nil)
+		if err := used.Put(gkey, id[:], gcontent); err != nil {
+			continue
+		}
+		k := 0
+		c13Mutants(b.c, b.ctx, false, true, func(m c13Case) {
+			mkey, mcontent := m.wire()
+			if k >= 60 || !bytes.Equal(mkey, gkey) || bytes.Equal(mcontent, gcontent) {
+				return
+			}
+			k++
+			var eu, ef error
+			panicsTo(func() { eu = used.Put(mkey, id[:], mcontent) })
+			panicsTo(func() { ef = state.NewStateStorage(storage.NewMockStorage(), nil).Put(mkey, id[:], mcontent) })
+			if ef != nil && eu == nil {
+				r.Violation("stores-exactly-the-final-node-or-code", c13KindName[b.c.Kind]+":put-under-a-key-already-held",
+					fmt.Sprintf("%s [%s]: an empty store refuses the item (%v); the store that already holds the genuine item under the key accepts it", b.c.Base, m.Op, ef), c13SeqCase{"held-key", b.c, m})
+			}
+			n++
+		})
+	}
+	r.Count("held_key_puts", int64(n))
 }
